@@ -235,22 +235,20 @@ theorem prepared_splitFused (val : ν → Rat) (k : Nat) (sh : Shell ν) (v : Va
 member at or below `max_am` (true of every sp / spd shell) -/
 theorem uncontractSpdf_valid [DecidableEq ν] (val : ν → Rat) (k : Nat) (shells out : List (Shell ν))
     (hv : ∀ sh ∈ shells, ValidShell val sh ∧ sh.coefs ≠ [] ∧ sh.ftype ∈ knownTypes)
-    (hlow : ∀ sh ∈ shells, sh.am.length > 1 → (splitFused k sh).2.am ≠ [])
     (h : pruneShells val (uncontractSpdf k shells) = .ok out)
     (hdup : ∀ s ∈ out, s.am.length = 1 → (s.coefs.map (·.map val)).Nodup) :
     validateElement val (some out) none false = none := by
   apply pruneShells_valid val _ out _ h hdup
   intro s hs
   obtain ⟨sh, hsh, hcase⟩ := (mem_uncontractSpdf k shells s).1 hs
-  rcases hcase with ⟨_, rfl⟩ | ⟨hf, rfl | hin⟩
+  rcases hcase with ⟨_, rfl⟩ | ⟨hf, ⟨rfl, hne⟩ | hin⟩
   · exact prepared_of_valid val _ (hv _ hsh).1 (hv _ hsh).2.1
-  · exact (prepared_splitFused val k sh (hv sh hsh).1 hf (hv sh hsh).2.2).2 (hlow sh hsh hf)
+  · exact (prepared_splitFused val k sh (hv sh hsh).1 hf (hv sh hsh).2.2).2 hne
   · exact (prepared_splitFused val k sh (hv sh hsh).1 hf (hv sh hsh).2.2).1 s hin
 
 /-- **`make_general` as `get_basis` calls it (fused shells split first)** of a valid element is a valid element -/
 theorem makeGeneral_valid_split [DecidableEq ν] (val : ν → Rat) (zero : ν) (hz : val zero = 0) (shells out : List (Shell ν))
     (hv : ∀ sh ∈ shells, ValidShell val sh ∧ sh.coefs ≠ [] ∧ sh.ftype ∈ knownTypes)
-    (hlow : ∀ sh ∈ shells, sh.am.length > 1 → (splitFused 0 sh).2.am ≠ [])
     (h : makeGeneral val zero false shells = .ok out)
     (hdup : ∀ s ∈ out, s.am.length = 1 → (s.coefs.map (·.map val)).Nodup) :
     validateElement val (some out) none false = none := by
@@ -262,9 +260,9 @@ theorem makeGeneral_valid_split [DecidableEq ν] (val : ν → Rat) (zero : ν) 
     apply prepared_makeGeneralCore val zero hz
     intro s hs
     obtain ⟨sh, hsh, hcase⟩ := (mem_uncontractSpdf 0 shells s).1 hs
-    rcases hcase with ⟨_, rfl⟩ | ⟨hf, rfl | hin⟩
+    rcases hcase with ⟨_, rfl⟩ | ⟨hf, ⟨rfl, hne⟩ | hin⟩
     · exact prepared_of_valid val _ (hv _ hsh).1 (hv _ hsh).2.1
-    · exact (prepared_splitFused val 0 sh (hv sh hsh).1 hf (hv sh hsh).2.2).2 (hlow sh hsh hf)
+    · exact (prepared_splitFused val 0 sh (hv sh hsh).1 hf (hv sh hsh).2.2).2 hne
     · exact (prepared_splitFused val 0 sh (hv sh hsh).1 hf (hv sh hsh).2.2).1 s hin
 
 end BSE
